@@ -226,6 +226,8 @@ pub fn handshake_messages(big: bool) -> Vec<W> {
         }
     }
     v.push(hs(13, |_| {}));
+    v.push(hs(13, |w| certificate_request_body(w, 255, Some(3), &[2])));
+    v.push(hs(13, |w| certificate_request_body(w, 255, None, &[])));
     // CertificateStatus
     for st in [0u8, 1, 2, 255] {
         for n in [0usize, 1, 255, 256] {
@@ -608,6 +610,59 @@ pub fn known_extensions() -> Vec<W> {
         v.push(ext(0xff01, |w| {
             w.block(1, "reneg_len", |w| fill(w, n, 0x9e));
         }));
+    }
+    // ---- list sizes at the limit of their length field (RFC maxima)
+    for n in [126usize, 127] {
+        // supported_versions: versions<2..254>
+        v.push(ext(43, |w| {
+            w.block(1, "versions_len", |w| {
+                for i in 0..n {
+                    w.u16(0x0300 + (i % 5) as u16);
+                }
+            });
+        }));
+    }
+    v.push(ext(45, |w| {
+        w.block(1, "modes_len", |w| fill(w, 255, 1));
+    }));
+    v.push(ext(11, |w| {
+        w.block(1, "list_len", |w| fill(w, 255, 0));
+    }));
+    v.push(ext(0xff01, |w| {
+        w.block(1, "reneg_len", |w| fill(w, 255, 0x9e));
+    }));
+    for t in [10u16, 13] {
+        v.push(ext(t, |w| {
+            w.block(2, "list_len", |w| {
+                for i in 0..32766usize {
+                    w.u16(i as u16);
+                }
+            });
+        }));
+    }
+    v.push(ext(16, |w| {
+        w.block(2, "alpn_list_len", |w| {
+            w.block(1, "proto_len", |w| fill(w, 255, b'x'));
+            w.block(1, "proto_len", |w| fill(w, 255, b'y'));
+        });
+    }));
+    v.push(ext(0, |w| {
+        w.block(2, "sni_list_len", |w| {
+            w.u8(0);
+            w.block(2, "sni_name_len", |w| fill(w, 65530, b'a'));
+        });
+    }));
+    v.push(ext(18, |w| {
+        w.block(2, "sct_list_len", |w| fill(w, 65533, 0x5c));
+    }));
+    v.push(ext(48, |w| {
+        w.block(2, "filters_len", |w| {
+            w.block(1, "oid_len", |w| fill(w, 255, 0x55));
+            w.block(2, "oid_val_len", |w| fill(w, 65000, 0x04));
+        });
+    }));
+    for t in [21u16, 35, 41, 44, 51, 5] {
+        v.push(ext(t, |w| fill(w, 65535, 1)));
     }
     // 0xffce esni
     for (a, b, c) in [(0usize, 0usize, 0usize), (32, 32, 10), (1, 0, 300)] {
